@@ -348,6 +348,47 @@ def _scalars(m):
     return [c for c in m if not 0xd800 <= c <= 0xdfff]
 
 
+# ---- how a handler raises its status: plain GRPCError or a user-defined error hierarchy on top of it ---------------
+
+EXC_KINDS = ['plain', 'plain', 'sub1', 'sub2']
+_ERRORS = {}
+
+
+def error_classes():
+    """a user-defined hierarchy, as applications write it: one and two levels below GRPCError, with extra attributes
+    and their own __str__"""
+    if not _ERRORS:
+        from grpclib.exceptions import GRPCError
+
+        class AppError(GRPCError):
+            retryable = False
+
+            def __init__(self, status, message=None, details=None, *, resource=None):
+                super().__init__(status, message, details)
+                self.resource = resource
+
+            def __str__(self):
+                return 'AppError(%s)' % (self.resource,)
+
+        class QuotaError(AppError):
+            retryable = True
+
+            def __init__(self, status, message=None, details=None, *, resource=None, limit=0):
+                super().__init__(status, message, details, resource=resource)
+                self.limit = limit
+        _ERRORS.update(plain=GRPCError, sub1=AppError, sub2=QuotaError)
+    return _ERRORS
+
+
+def make_error(kind, st, msg, details):
+    cls = error_classes()[kind or 'plain']
+    if kind == 'sub1':
+        return cls(st, msg, details, resource='shelf/1')
+    if kind == 'sub2':
+        return cls(st, msg, details, resource='shelf/2', limit=10)
+    return cls(st, msg, details)
+
+
 # ---- implementation side: pure functions -----------------------------------------------------------
 
 def impl_enc(m):
@@ -415,7 +456,7 @@ def impl_trailers(case):
         async def handler(stream):
             await stream.recv_message()
             if how == 'raise':
-                raise GRPCError(st, msg, det)
+                raise make_error(case.get('exc'), st, msg, det)
             if how == 'send-after-message':
                 await stream.send_message(b'r')
             await stream.send_trailing_metadata(status=st, status_message=msg, status_details=det)
@@ -555,10 +596,10 @@ def e2e(case):
         async def handler(stream):
             await stream.recv_message()
             if how == 'raise':
-                raise GRPCError(st, msg, details)
+                raise make_error(case.get('exc'), st, msg, details)
             if how == 'raise-after-message' or how == 'raise-stream':
                 await stream.send_message(b'r')
-                raise GRPCError(st, msg, details)
+                raise make_error(case.get('exc'), st, msg, details)
             if how == 'send-after-message' or how == 'send-stream':
                 await stream.send_message(b'r')
             await stream.send_trailing_metadata(status=st, status_message=msg, status_details=details, metadata=md)
@@ -718,7 +759,7 @@ def e2e_lifecycle(case):
                 await stream.recv_message()
                 await stream.send_message(b'r')
             if how == 'raise':
-                raise GRPCError(st, msg, details)
+                raise make_error(case.get('exc'), st, msg, details)
             await stream.send_trailing_metadata(status=st, status_message=msg, status_details=details)
         codec = recording_proto_codec(log)
         server = Server([Service('v.S', {'M': (handler, case['card'])})], codec=RawCodec(), status_details_codec=codec)
@@ -817,7 +858,7 @@ def gen_lifecycle_cases(rng, full):
                     for dc in det_classes:
                         for srv in ('early', 'read-reply'):
                             c = {'op': 'e2e-lc', 'card': card, 'half_closed': hc, 'mode': mode, 'sleep': sleep,
-                                 'srv': srv, 'how': rng.choice(['raise', 'raise', 'send']),
+                                 'srv': srv, 'how': rng.choice(['raise', 'raise', 'send']), 'exc': rng.choice(EXC_KINDS),
                                  'cut': rng.choice([None, rng.randint(1, 10 ** 6)])}
                             c['finish'] = not hc and rng.random() < 0.3
                             if lc_valid(c) and (full or rng.random() < 0.5):
@@ -886,6 +927,8 @@ def check_e2e(ctx, res, cases):
         res.evaluations += 1
         kinds = tuple(sorted(set(s[0] for s in (case.get('details') or []))))
         dclass = 'details' if case.get('details') else ('nodetails' if case.get('details') is None else 'emptydetails')
+        if case.get('op') != 'e2e-peer' and case.get('how', 'raise').startswith('raise'):
+            res.count('e2e:handler-raises:%s' % (case.get('exc') or 'plain'))
         if case.get('op') in ('e2e-lc', 'e2e-peer'):
             res.count('%s:%s:%s:%s:%s' % (case['op'], case['card'], 'half-closed' if case['half_closed'] else 'sending',
                                           case['mode'], dclass))
@@ -894,7 +937,7 @@ def check_e2e(ctx, res, cases):
                                 case.get('srv'), case.get('layout'), case.get('term'), kinds))
         else:
             res.count('e2e:%s:%s' % (case.get('how', 'raise'), dclass))
-            res.signatures.add(('e2e', case['st'], case.get('how'), msg_class(case['msg']), kinds))
+            res.signatures.add(('e2e', case['st'], case.get('how'), case.get('exc'), msg_class(case['msg']), kinds))
         res.sample({'op': 'e2e', 'status': case['st'], 'message': case['msg'], 'details': case.get('details'),
                     'client': {k: v for k, v in obs.items() if k not in ('codec_log',)}}, limit=8)
         lifecycle_silent = case.get('op') in ('e2e-lc', 'e2e-peer') and obs.get('exc') != 'GRPCError'
@@ -1063,7 +1106,7 @@ def check_trailers(ctx, res, cases):
         obs = impl_trailers(c)
         res.evaluations += 1
         res.count('server-trailers:' + c.get('how', 'raise'))
-        res.signatures.add(('tr', c['st'], c.get('how'), msg_class(c['msg']), c['det'] is None, c.get('codec', True)))
+        res.signatures.add(('tr', c['st'], c.get('how'), c.get('exc'), msg_class(c['msg']), c['det'] is None, c.get('codec', True)))
         res.sample({'op': 'server trailers', 'case': c, 'wire': obs}, limit=4)
         unary_ok_without_message = c['st'] == 0 and c.get('how', 'raise') != 'send-after-message'
         if model is not None and not unary_ok_without_message:
@@ -1186,7 +1229,7 @@ def gen_receive_case(rng):
     return {'hs': hs, 'layout': layout, 'codec': rng.random() < 0.85}
 
 
-def gen_e2e_case(rng, st=None, how=None):
+def gen_e2e_case(rng, st=None, how=None, exc=None):
     members = [s.value for s in status_members()]
     st = st if st is not None else rng.choice(members)
     hows = ['raise', 'raise', 'send', 'raise-after-message', 'send-after-message', 'raise-stream', 'send-stream']
@@ -1199,6 +1242,7 @@ def gen_e2e_case(rng, st=None, how=None):
     if how.startswith('send') and rng.random() < 0.4:
         md = [['x-k', 'v %41'], ['blob-bin', gen_details_bytes(rng)], ['x-k', 'second']][:rng.randint(1, 3)]
     return {'op': 'e2e', 'st': st, 'msg': msg, 'details': gen_detail_specs(rng), 'how': how, 'md': md,
+            'exc': exc or rng.choice(EXC_KINDS),
             'details_as': rng.choice(['list', 'tuple']), 'cut': rng.choice([None, rng.randint(1, 10 ** 6)])}
 
 
@@ -1218,7 +1262,7 @@ def run(ctx):
                 '(c) real server in front of a scripted peer: every Status member x {raise, send, send-after-message} x '
                 'message classes; (d) real client behind a scripted server: fixed malformed grpc-message byte strings x 2 '
                 'layouts + PRNG; (e) real client <-> real server with re-cut delivery and ProtoStatusDetailsCodec: every '
-                'Status member x {raise, send} and PRNG (message, list of google.rpc details of known / unknown types); (f) the call '
+                'Status member x {raise GRPCError, raise a user-defined subclass one / two levels deep, send_trailing_metadata} and PRNG (message, list of google.rpc details of known / unknown types; the raised class is drawn from the same three); (f) the call '
                 'life-cycle matrix: 4 cardinalities x {client half-closed, still sending} x {status consumed by '
                 'recv_trailing_metadata, at context exit, by the StreamTerminatedError upgrade in __aexit__ while sending / '
                 'receiving} x {ops racing with / after arrival} x details {None, known, unknown}, once with the real server '
@@ -1268,13 +1312,15 @@ def run(ctx):
     for s in status_members():
         for how in ('raise', 'send', 'send-after-message'):
             for m in fixed_msgs:
-                trs.append({'st': s.value, 'msg': m, 'det': rng.choice([None, b'', b'\x0a\xff']), 'how': how})
+                trs.append({'st': s.value, 'msg': m, 'det': rng.choice([None, b'', b'\x0a\xff']), 'how': how,
+                            'exc': rng.choice(EXC_KINDS)})
     for _ in range(ctx.n(2000, 30000)):
         r = rng.random()
         trs.append({'st': rng.choice(status_members()).value,
                     'msg': None if r < 0.1 else gen_msg(rng) if r < 0.95 else gen_msg_with_surrogate(rng),
                     'det': None if rng.random() < 0.4 else gen_details_bytes(rng),
-                    'how': rng.choice(['raise', 'send', 'send-after-message']), 'codec': rng.random() < 0.85})
+                    'how': rng.choice(['raise', 'send', 'send-after-message']), 'codec': rng.random() < 0.85,
+                    'exc': rng.choice(EXC_KINDS)})
     check_trailers(ctx, res, trs)
     # (d)
     for v in RCV_FIXED:
@@ -1286,8 +1332,8 @@ def run(ctx):
     check_receive(ctx, res, rcvs)
     # (e)
     for s in status_members():
-        for how in ('raise', 'send'):
-            e2es.append(gen_e2e_case(rng, s.value, how))
+        for how, exc in (('raise', 'plain'), ('raise', 'sub1'), ('raise', 'sub2'), ('send', 'plain')):
+            e2es.append(gen_e2e_case(rng, s.value, how, exc))
     for _ in range(ctx.n(1500, 20000)):
         e2es.append(gen_e2e_case(rng))
     e2es += gen_lifecycle_cases(rng, ctx.tier == 'thorough' or ctx.search)
